@@ -48,6 +48,7 @@ structure Coll where
 
 inductive Err where
   | noIndex
+  | complexity
   deriving Repr, DecidableEq
 
 /-- `MAX_SEARCH_LIMIT`, regenerated from the source on every run. -/
@@ -213,6 +214,78 @@ def evalAndRest (c : Coll) : List Filter → Bool → List Nat → Except Err (L
 end
 
 -- ------------------------------------------------------------------------------------------
+-- `Filter::validate_complexity` (rs/anda_db/src/query.rs): depth / node / branch / include budget
+-- ------------------------------------------------------------------------------------------
+
+/-- `ComplexityStats` -/
+structure Stats where
+  nodes : Nat
+  branches : Nat
+  deriving Repr, DecidableEq
+
+def bumpNode (s : Stats) : Except Err Stats :=
+  if s.nodes + 1 > Gen.FilterConsts.maxFilterNodes then .error .complexity else .ok { s with nodes := s.nodes + 1 }
+
+def bumpBranches (s : Stats) (n : Nat) : Except Err Stats :=
+  if s.branches + n > Gen.FilterConsts.maxFilterBranches then .error .complexity else .ok { s with branches := s.branches + n }
+
+mutual
+def validateRange : RQ → Nat → Stats → Except Err Stats
+  | q, depth, s =>
+      if depth > Gen.FilterConsts.maxFilterDepth then .error .complexity
+      else match bumpNode s with
+        | .error e => .error e
+        | .ok s =>
+          match q with
+          | .incl ks => if ks.length > Gen.FilterConsts.maxRangeIncludeKeys then .error .complexity else .ok s
+          | .and qs => match bumpBranches s qs.length with
+              | .error e => .error e
+              | .ok s => validateRanges qs (depth + 1) s
+          | .or qs => match bumpBranches s qs.length with
+              | .error e => .error e
+              | .ok s => validateRanges qs (depth + 1) s
+          | .not q => validateRange q (depth + 1) s
+          | _ => .ok s
+def validateRanges : List RQ → Nat → Stats → Except Err Stats
+  | [], _, s => .ok s
+  | q :: qs, depth, s =>
+      match validateRange q depth s with
+      | .error e => .error e
+      | .ok s => validateRanges qs depth s
+end
+
+mutual
+def validateFilter : Filter → Nat → Stats → Except Err Stats
+  | f, depth, s =>
+      if depth > Gen.FilterConsts.maxFilterDepth then .error .complexity
+      else match bumpNode s with
+        | .error e => .error e
+        | .ok s =>
+          match f with
+          | .id q => validateRange q (depth + 1) s
+          | .field _ q => validateRange q (depth + 1) s
+          | .or fs => match bumpBranches s fs.length with
+              | .error e => .error e
+              | .ok s => validateFilters fs (depth + 1) s
+          | .and fs => match bumpBranches s fs.length with
+              | .error e => .error e
+              | .ok s => validateFilters fs (depth + 1) s
+          | .not f => validateFilter f (depth + 1) s
+def validateFilters : List Filter → Nat → Stats → Except Err Stats
+  | [], _, s => .ok s
+  | f :: fs, depth, s =>
+      match validateFilter f depth s with
+      | .error e => .error e
+      | .ok s => validateFilters fs depth s
+end
+
+/-- `Filter::validate_complexity` -/
+def withinBudget (f : Filter) : Bool :=
+  match validateFilter f 0 { nodes := 0, branches := 0 } with
+  | .ok _ => true
+  | .error _ => false
+
+-- ------------------------------------------------------------------------------------------
 -- `filter_by_field`, `ScanOrder::truncate`, entry points
 -- ------------------------------------------------------------------------------------------
 
@@ -242,6 +315,13 @@ def queryFrom (c : Coll) (f : Filter) (limit : Option Nat) (desc : Bool) : Excep
 def queryIds (c : Coll) (f : Filter) (limit : Option Nat) := queryFrom c f limit false
 def queryLastIds (c : Coll) (f : Filter) (limit : Option Nat) := queryFrom c f limit true
 def queryAllIds (c : Coll) (f : Filter) : Except Err (List Nat) := filterByField c f [] 0 false
+
+/-- The public entry points as called: `validate_complexity` first, then the evaluation. -/
+def guarded (f : Filter) (k : Except Err (List Nat)) : Except Err (List Nat) :=
+  if withinBudget f then k else .error .complexity
+def apiQueryIds (c : Coll) (f : Filter) (limit : Option Nat) := guarded f (queryIds c f limit)
+def apiQueryLastIds (c : Coll) (f : Filter) (limit : Option Nat) := guarded f (queryLastIds c f limit)
+def apiQueryAllIds (c : Coll) (f : Filter) := guarded f (queryAllIds c f)
 
 /-- The filter stage of `search_ids`: candidates in relevance order (already unique), restricted
 to the filter's match set, head kept. -/
